@@ -24,7 +24,9 @@ class PreconditionViolation(Exception):
 
 
 def generated_header_error(u, incs):
-    """first compiler error located inside sbeppc's output directory (None if the error is in the wrapper or in sbepp.hpp)"""
+    """first compiler error located inside sbeppc's output directory or inside the library header itself (None if the first error is located in the wrapper TU):
+    instantiating a documented accessor of an accepted schema must compile; an ill-formed wrapper (e.g. a renamed detail:: name) is reported at the wrapper's own line and stays an engine error"""
+    incs = list(incs) + [os.path.join(P.REPO, "sbepp", "src")]
     for ln in (u.get("stderr") or "").split("\n"):
         m = re.match(r"(\S+?):(\d+):(\d+): (fatal )?error: (.*)", ln)
         if not m: continue
@@ -56,12 +58,13 @@ class Ctx:
         if "error" in u:
             gh = generated_header_error(u, kw.get("incs") or ())
             if gh:
+                self.lower_failure = name
                 d = os.path.join(VERIF, "replays", self.pid, "generated_header_does_not_compile_" + re.sub(r"\W", "_", name)); os.makedirs(d, exist_ok=True)
                 shutil.copy(u["cpp"], os.path.join(d, "w.cpp"))
                 open(os.path.join(d, "compiler_output.txt"), "w").write(u.get("stderr", ""))
                 open(os.path.join(d, "replay.sh"), "w").write("#!/bin/sh\n# re-runs the front end on the wrapper that includes the generated header; falls back to the recorded output\n"
                                                               "clang++-14 %s -fsyntax-only %s/w.cpp 2>&1 | head -40; cat %s/compiler_output.txt | head -40; exit 1\n" % (" ".join(u.get("flags", [])), d, d))
-                raise PreconditionViolation("sbeppc accepted the verification schema but its generated header does not compile (%s): %s" % (name, gh[:300]), d)
+                raise PreconditionViolation("a generated header / the library header does not compile when a documented accessor of an accepted verification schema is instantiated (%s): %s" % (name, gh[:300]), d)
             raise P.EngineError("unit %s does not lower: %s\n%s" % (name, u["error"], u.get("stderr", "")))
         self.units.append(u)
         return u
